@@ -1,6 +1,7 @@
 import Ivg.Lemmas.Codec
 import Ivg.Lemmas.Quantize
 import Ivg.Lemmas.ZeroToOne
+import Ivg.Lemmas.Angle
 import Ivg.Gen.Tie.DrawOps
 import Ivg.Gen.Tie.Magic
 import Ivg.Obligations
@@ -18,8 +19,7 @@ an error, never read past the end."
 
 The theorems below are about the executable model (`Ivg.Enc.*`, `Ivg.Dec.*`), which the differential
 suite ties to /repo.  Structural (S) and bit-level (B) clauses are proved in full, and so are the
-float-semantic (F) clauses about reals, coordinates and `quantize`; see the end of the file for the
-clause (angle normalisation) that is NOT proved here.
+float-semantic (F) clauses about reals, coordinates, `quantize`, zero-to-one numbers and angles.
 
 Each implication is followed by an `example` that exhibits a concrete instance of its hypotheses
 (non-vacuity).
@@ -431,13 +431,36 @@ theorem angle_bound (f : F32) (h : (Enc.encodeAngle f).length ≠ 4) :
       (angleNorm f).nb ≤ (rtAngle f).nb + 1) :=
   Z2O.z2o_bound (angleNorm f) h
 
-/-!
-## Clauses NOT proved in this file (documented gaps; covered by the exhaustive differential tier)
+/-! ## arc angles: `encodeAngle` normalises modulo 1 with a single binary32 rounding -/
 
-* `angle_mod1`: that `angleNorm f = float32(g − floor g)`, `g = float64(f)`, is `f − ⌊f⌋` rounded once to
-  binary32 (it is exact for `f ≥ 0` and whenever `f` is a multiple of 2^-24; for tiny negative `f` the
-  float64 subtraction itself rounds, to 1.0).  `angle_roundtrip` / `angle_bound` are relative to
-  `angleNorm`.
+/-- `angleNorm f = float32(g − floor g)`, `g = float64(f)`, is the float32 NEAREST to the exact
+    rational `f − ⌊f⌋` (= `N/2^149` with the integer `N = Angle.fracN f`), for every finite float32:
+    `float64(f)` and `floor` are exact, the float64 subtraction is exact except for tiny negative `f`
+    (`|f| < 2^-30`, where both sides are 1.0), and `float32(·)` rounds once.  `F32.ofRatio` is the
+    model's correctly rounded rational → float32 conversion (ties to even). -/
+theorem angle_mod1 (f : F32) (hfin : expo f ≠ 255) :
+    angleNorm f = F32.ofRatio false (Angle.fracN f) (2^149) := Angle.angle_mod1 f hfin
+-- -0.75 ↦ 0.25: N = 2^147
+example : expo ⟨0xbf400000⟩ ≠ 255 ∧ Angle.fracN ⟨0xbf400000⟩ = 2^147 := by decide
+set_option maxRecDepth 100000 in
+example : angleNorm ⟨0xbf400000⟩ = ⟨0x3e800000⟩ := by decide +kernel
+
+/-- The normalised angle lies in [0, 1]: sign bit clear, bit pattern at most that of 1.0 (1.0 itself is
+    reached for tiny negative inputs and is then written in the 4-byte form). -/
+theorem angle_range (f : F32) (hfin : expo f ≠ 255) :
+    sgn (angleNorm f) = 0 ∧ (angleNorm f).nb ≤ 1065353216 := Angle.angle_range f hfin
+
+/-- An already normalised angle `0 ≤ f < 1` is unchanged, bit for bit (so `encodeAngle f =
+    encodeZeroToOne f` there). -/
+theorem angle_id (f : F32) (h : f.nb < 1065353216) : angleNorm f = f := Angle.angleNorm_id f h
+example : (⟨0x3e99999a⟩ : F32).nb < 1065353216 := by decide
+
+/-!
+## Clauses NOT proved in this file
+
+None of the clauses of the property text remains open at the level of the model.  Outside the text:
+for NaN / ±Inf inputs `angleNorm` is not characterised (`angle_mod1` assumes a finite input; the
+encoder then writes the 4-byte form of whatever NaN results).
 -/
 
 end Ivg.Props.C08
@@ -464,4 +487,5 @@ end Ivg.Props.C08
   Ivg.Props.C08.arcflags_roundtrip,
   Ivg.Props.C08.quantize_nearest, Ivg.Props.C08.quantize_unchanged, Ivg.Props.C08.quantize_short,
   Ivg.Props.C08.quantize_idem, Ivg.Props.C08.z2o_bound, Ivg.Props.C08.angle_bound,
+  Ivg.Props.C08.angle_mod1, Ivg.Props.C08.angle_range, Ivg.Props.C08.angle_id,
   Ivg.Gen.Tie.drawOps_tie, Ivg.Gen.Tie.magic_tie]
